@@ -95,29 +95,33 @@ PROPS = {
         "level_note": "Trusts iosim's channel model and the executor's deadlock detection; the write-side buffer size is only observable through the byte count a complete flush reports.",
     },
     "C13": {
-        "title": "Framing and ancillary codecs: round-trip and hostile-input safety (framing half; pure ancillary builder round-trip not claimed, DESIGN §8)",
+        "title": "Framing and ancillary codecs: round-trip and hostile-input safety",
         "engine": "S",
         "package": "check-s",
         "bin": "check-s",
-        "design_ref": "§3, §7 C13, §8",
-        "technique": "deterministic simulation: Framed sink -> fault-injecting duplex channel -> Framed stream as two simulated tasks (all framers, bytes and serde_json codecs), sequence-equality oracle; hostile peer bytes into the reading side with panic / endless-loop / step-bound oracles; choice-sequence minimisation and replay",
+        "share": 7,
+        "more_parts": [{"engine": "K", "package": "check-k", "bin": "check-k", "share": 1}],
+        "design_ref": "§3, §7 C13, §8, §13.10",
+        "technique": "deterministic simulation, two engines. K (ancillary half): control messages built with AncillaryBuilder in buffers that fit exactly, generously or not at all travel with sendmsg through the real socket layer and recvmsg on the simulated io_uring kernel or the polling driver (descriptors over Unix stream pairs with every send / receive flavour of the ancillary traits incl. managed and multishot; traffic class and packet info of one or two messages of different sizes with UDP datagrams over IPv4/IPv6 incl. zero-copy sends), the simulator deciding completion order, short transfers and timing, the receive buffers cutting control data (MSG_CTRUNC); builder-bound, round-trip, decode-slice, exactly-once-descriptor, cut-flag and descriptor-ledger oracles. S (framing half): Framed sink -> fault-injecting duplex channel -> Framed stream as two simulated tasks (all framers, bytes and serde_json codecs), sequence-equality oracle; hostile peer bytes into the reading side with panic / endless-loop / step-bound oracles; choice-sequence minimisation and replay",
         "tiers": {
             "quick": {"runs": 2_000_000, "time_limit_s": 60},
             "thorough": {"runs": 150_000_000, "time_limit_s": 1500},
         },
-        "rule": S_RULE,
-        "real": S_REAL + ["bytes", "serde_json"],
-        "stub": S_STUB,
+        "rule": S_RULE + " Engine K runs (an eighth of the workers): " + K_RULE,
+        "real": S_REAL + ["bytes", "serde_json", "Engine K part: compio-io ancillary (builder, iterator, buffer, AncillaryData), compio-net UnixStream / UdpSocket message operations, compio-driver SendMsg / RecvMsg operations of both drivers incl. managed and multishot, the Linux socket layer's control-message handling (real sendmsg / recvmsg calls issued by the simulated kernel)"],
+        "stub": S_STUB + ["Engine K part: the kernel side of io_uring and the poll wait (crates/simkernel), the clock"],
         "assumptions": [
             "payloads never contain the delimiter (delimiter framers cannot escape it) and fit the length field width",
             "writer-side faults are retryable only (a frame cut by a hard write error cannot be resumed); the reader side may also fail hard once without losing data",
-            "the pure AncillaryBuilder/CMsgIter round-trip over message lists is input-only and NOT decided here; control messages through real sockets belong to the C14 workload",
+            "ancillary half: message lists are those the scenarios send (SCM_RIGHTS lists of 1..5 descriptors, IP_TOS as byte or int, IPV6_TCLASS, IP(V6)_PKTINFO), not arbitrary ones; AncillaryIter::new is an unsafe function whose contract demands valid control messages, so hostile control buffers are outside the property; Windows code paths are not run",
             "a truncated frame at EOF is dropped silently by design (the stream ends); not flagged",
             "sampling, not enumeration",
         ],
         "level_text": ("Seeded exploration of fragmentation (short reads/writes down to 1 byte, Pending, Interrupted, hold-until-flush transports, back-pressure) between a real Framed sink and a real "
-                       "Framed stream for every framer/codec, plus hostile byte strings (huge length fields, split delimiters, truncated headers, malformed JSON) with EOF anywhere."),
-        "level_note": "Only the framing half of C13 is claimed. Trusts iosim's channel model.",
+                       "Framed stream for every framer/codec, plus hostile byte strings (huge length fields, split delimiters, truncated headers, malformed JSON) with EOF anywhere. "
+                       "Ancillary half: control-message lists built, sent, received (whole or cut) and iterated through real sockets on the simulated kernel: nothing written or read beyond a buffer, "
+                       "every message and descriptor arrives once with its content, cut control data is flagged and refused by typed decoding."),
+        "level_note": "Framing half on Engine S (trusts iosim's channel model); ancillary half on Engine K through real Unix and UDP sockets (control messages the Linux socket layer accepts; the kernel's own cmsg handling is real).",
     },
     "C15": {
         "title": "TLS and WebSocket layers preserve the stream over any transport behaviour",
